@@ -35,6 +35,9 @@ def run(ctx):
         spec = ctx.vspec(v)
         for key, table in sorted(tables.items()):
             bad = []
+            if any(got is RS.NOT_EVALUATED or got == RS.NOT_EVALUATED for got in table.values()):
+                led.undecided("C11.severity", "CVSS%d.as_json[%s]: the field's value graph does not reduce to a constant on the score grid" % (v, key))
+                continue
             for q, got in sorted(table.items()):
                 lab = RS.official_label(spec, q)
                 want = None if lab is None else lab.upper().replace(" ", "_")
@@ -50,3 +53,32 @@ def run(ctx):
                 "%s differs from the rating of its score on %d grid point(s), e.g. score %s -> %r, the scale says %r" % ((key, len(bad)) + (bad[0] if bad else (None, None, None))),
             )
     led.require_min("C11", n, 100, "faithfulness obligations")
+
+    # as_json() itself: it must return for every accepted vector (there is no document otherwise) and
+    # be a function of the object (no cache keyed on ==, no state kept between calls)
+    from ..rules_access import check_accessors
+
+    for v_ in (2, 3, 4):
+        check_accessors(ctx, ctx.ledger, v_, rules=('pure', 'total'), prefix="C11.pure", only=("as_json",))
+
+    # a cache on a method keys on the object's == / hash, i.e. on the cleaned vector: two objects built
+    # from differently written strings share an entry, and vectorString identifies only one of them
+    from ..ctx import VERSIONS
+    from ..rules_access import get_effects
+
+    E = get_effects(ctx)
+    for v_ in (2, 3, 4):
+        info = VERSIONS[v_]
+        q = "%s.as_json" % info["cls"]
+        roots = [x for x in E.infos if x == q or x.endswith("." + q) or x.endswith(q)]
+        effs = E.effects_of(roots, kinds=("cache",)) if roots else []
+        for e in effs[:2]:
+            ctx.ledger.violation(
+                "C11.pure.cache",
+                e.key(),
+                e.where(),
+                "as_json() of %s goes through a cached function (%s): the cache is keyed on == / hash, which ignore the spelling of the "
+                "input, so an equal object built from another string gets this object's fields (vectorString)" % (info["cls"], e.what),
+            )
+        if not effs:
+            ctx.ledger.ok("C11.pure.cache", "%s.as_json" % info["cls"], "cvss/%s.py" % info["mod"], "no caching decorator under as_json()")
